@@ -386,11 +386,14 @@ struct Runner<'a> {
     fenced: bool,
     /// ids in the orphan pool without a harness callback
     foreign: BTreeSet<usize>,
+    /// after a restart with tip = genesis: blocks InitLoadUnverified must have resubmitted; the poll
+    /// waits (bounded) until each has an ext, is deleted or is pooled
+    await_resolved: Vec<usize>,
 }
 
 impl<'a> Runner<'a> {
     fn new(node: &'a Node, blks: &'a [Blk], fenced: bool) -> Runner<'a> {
-        Runner { node, blks, by_hash: hash_map(blks), log: Arc::new(Mutex::new(CbLog::default())), handed: 0, handed_by_id: HashMap::new(), fenced, foreign: BTreeSet::new() }
+        Runner { node, blks, by_hash: hash_map(blks), log: Arc::new(Mutex::new(CbLog::default())), handed: 0, handed_by_id: HashMap::new(), fenced, foreign: BTreeSet::new(), await_resolved: vec![] }
     }
 
     fn view(&self) -> StateView {
@@ -450,6 +453,14 @@ impl<'a> Runner<'a> {
         v
     }
 
+    fn unresolved_awaited(&self) -> Vec<usize> {
+        let store = self.node.store();
+        self.await_resolved.iter().copied().filter(|c| {
+            let hash = &self.blks[*c].hash;
+            store.get(COLUMN_BLOCK_HEADER, hash.as_slice()).is_some() && store.get_block_ext(hash).is_none() && !self.in_pool(*c)
+        }).collect()
+    }
+
     fn my_outstanding_outside_pool(&self) -> bool {
         let l = self.log.lock().unwrap();
         for (id, n) in &self.handed_by_id {
@@ -464,8 +475,9 @@ impl<'a> Runner<'a> {
     /// Quiescence on a restarted node. The chain-service thread is idle (a synchronous request has
     /// returned). Tip != genesis: re-deliver the (verified) tip block with a private callback; it is
     /// answered Ok(false) after every earlier queued block was verified (FIFO). Tip == genesis:
-    /// nothing verified exists to fence with; poll until the state is stable for 50 ms, no harness
-    /// callback is outstanding outside the pool and no block looks like unfinished work.
+    /// nothing verified exists to fence with; poll until the state is stable for 50 ms and no harness
+    /// callback is outstanding outside the pool (after a restart also, bounded, until the blocks that
+    /// must have been resubmitted are resolved); as soon as the tip moves, fence.
     fn settle(&self) -> Result<(), String> {
         let t0 = Instant::now();
         let genesis = self.blks[0].hash.clone();
@@ -504,7 +516,10 @@ impl<'a> Runner<'a> {
                 if cur != last {
                     last = cur;
                     since = Instant::now();
-                } else if since.elapsed() >= Duration::from_millis(50) && !self.my_outstanding_outside_pool() && self.pending_looking().is_empty() {
+                } else if since.elapsed() >= Duration::from_millis(50) && !self.my_outstanding_outside_pool() && (t0.elapsed() > wait_timeout() / 12 || self.unresolved_awaited().is_empty()) {
+                    break;
+                }
+                if self.node.shared.snapshot().tip_hash() != genesis {
                     break;
                 }
                 if t0.elapsed() > wait_timeout() {
@@ -1350,7 +1365,10 @@ fn restart_and_redeliver(out: &mut Out, h: &Hist, node_dir: &Path, crashed: &Cra
     {
         let mut r = Runner::new(&node, &h.blks, true);
         let restart_op = format!("restart {} {}", h.consensus.max_epoch_length(), show_ids(&h.scan_order()));
-        if let Err(e) = r.after_restart() {
+        r.await_resolved = crashed.view.tip.map(|tip| expected_scan(h, tip, &crashed.unext)).unwrap_or_default();
+        let ar = r.after_restart();
+        r.await_resolved.clear();
+        if let Err(e) = ar {
             out.oracle_fail("hang", &format!("{what}: after restart: {e}"));
             if emit {
                 out.op(&restart_op, "hang");
